@@ -499,11 +499,12 @@ Proof.
     + cbn [map sequence]. now rewrite Rl, E.
 Qed.
 
-Lemma w_keys_rt : forall ks k, ks <> [] -> NoDup ks -> w_keys ks = Some k ->
-  k = join 58 ks /\ (exists c u, k = c :: u /\ c <> 46) /\ ~ In 9 k /\
-  e_keys k = Some ks /\ l_keys k = ks.
+Lemma w_keys_rt : forall ks k, NoDup ks -> w_keys ks = Some k ->
+  k <> [] /\ ~ In 9 k /\
+  e_keys k = Some ks /\ (if bytes_eqb k dot then [] else l_keys k) = ks.
 Proof.
-  intros ks k Hne Hnd Hw. unfold w_keys in Hw. destruct ks as [|k0 kt]; [contradiction|].
+  intros ks k Hnd Hw. unfold w_keys in Hw. destruct ks as [|k0 kt].
+  { inversion Hw; subst k. repeat split; try discriminate. cbn. lia. }
   destruct (existsb (bytes_eqb key_gt) kt); [discriminate|].
   destruct (forallb key_valid (k0 :: kt)) eqn:F; [|discriminate]. inversion Hw; subst k.
   change (match kt with [] => k0 | _ :: _ => k0 ++ 58 :: join 58 kt end) with (join 58 (k0 :: kt)).
@@ -515,15 +516,16 @@ Proof.
   destruct (join_head 58 (k0 :: kt) k0 kt c t eq_refl E0) as (u & Eu).
   assert (H58 : Forall (fun p => ~ In 58 p) (k0 :: kt)) by (apply Forall_forall; intros x Hx; now destruct (Hk x Hx) as (_ & ? & _)).
   assert (Hn0 : Forall (fun p => p <> []) (k0 :: kt)) by (apply Forall_forall; intros x Hx; now destruct (Hk x Hx) as (? & _ & _)).
-  split; [reflexivity|]. split; [exists c, u; split; [exact Eu|exact Hc]|]. split.
+  assert (Hd : join 58 (k0 :: kt) <> dot) by (rewrite Eu; intro X; inversion X; contradiction).
+  split; [rewrite Eu; discriminate|]. split.
   - intro Hi. destruct (In_join _ _ _ Hi) as [X|(p & Hp & Hcp)]; [discriminate|].
     destruct (Hk p Hp) as (_ & _ & H9). contradiction.
   - split.
     + unfold e_keys. rewrite Eu. rewrite <- Eu.
-      assert (Hd : join 58 (k0 :: kt) <> dot) by (rewrite Eu; intro X; inversion X; contradiction).
       rewrite (bytes_eqb_neq _ _ Hd). rewrite split_all_join by (assumption || discriminate).
       rewrite has_dup_nodup by exact Hnd. reflexivity.
-    + unfold l_keys. rewrite Eu. rewrite <- Eu. rewrite split_all_join by (assumption || discriminate).
+    + rewrite (bytes_eqb_neq _ _ Hd). unfold l_keys. rewrite Eu. rewrite <- Eu.
+      rewrite split_all_join by (assumption || discriminate).
       now apply drop_last_empty_id.
 Qed.
 
@@ -540,7 +542,7 @@ Definition rec_ok (h : hctx) (r : vrec) : Prop :=
   (NoDup (map fst (r_info r)) /\ Forall (info_ok h) (r_info r)) /\
   match r_samples r with
   | [] => r_keys r = [] /\ h_nsamples h = O
-  | rows => length rows = h_nsamples h /\ r_keys r <> [] /\ NoDup (r_keys r) /\
+  | rows => length rows = h_nsamples h /\ NoDup (r_keys r) /\
             Forall (row_ok (h_v44 h) (map (fdef_of h) (r_keys r))) rows
   end.
 
@@ -661,20 +663,19 @@ Proof.
     destruct (r_samples r) as [|vs rows] eqn:Erows.
     - destruct Hsmp as [Hk Hn]. inversion Ecols; subst cols. rewrite Hk, Hn.
       repeat split; [constructor|discriminate].
-    - destruct Hsmp as (Hn & Hk0 & Hknd & Hrows).
+    - destruct Hsmp as (Hn & Hknd & Hrows).
       destruct (w_keys (r_keys r)) as [k|] eqn:Ek; [|discriminate].
       destruct (sequence (map (fun vs0 => write_sample fmt_float (h_v44 h) (zip_take (r_keys r) vs0)) (vs :: rows))) as [cs|] eqn:Ecs; [|discriminate].
       inversion Ecols; subst cols.
-      destruct (w_keys_rt (r_keys r) k Hk0 Hknd Ek) as (_ & (c0 & u & Eku & Hc0) & Tk & Ke & Kl).
+      destruct (w_keys_rt (r_keys r) k Hknd Ek) as (Kne & Tk & Ke & Kl).
       destruct (rows_rt (h_v44 h) (r_keys r) (map (fdef_of h) (r_keys r)) (vs :: rows) cs
                   (map_length _ _) Hrows Ecs) as (C0 & C9 & Clen & Ce & Cl).
-      assert (Hkd : bytes_eqb k dot = false) by (apply bytes_eqb_neq; rewrite Eku; intro X; inversion X; contradiction).
       split; [constructor; assumption|].
       rewrite <- Hn. cbn [length hd tl]. rewrite Ke. cbn [length] in Ce. rewrite Ce.
       split; [reflexivity|].
       destruct cs as [|c1 cs']; [cbn in Clen; discriminate|].
       split; [|discriminate].
-      cbn [l_samples]. rewrite Hkd, Kl. rewrite (drop_last_empty_id _ C0). rewrite Cl. reflexivity. }
+      cbn [l_samples]. rewrite Kl. rewrite (drop_last_empty_id _ C0). rewrite Cl. reflexivity. }
   destruct Hcols as (Tcols & Se & Sl & Cne).
   assert (Hsplit : split_all 9 t =
                    r_chrom r :: fmt_dec (r_pos r) :: i :: map canon_base (r_ref r) :: a ::
@@ -785,13 +786,14 @@ Lemma witness_empty_ref :
     read_eager w_prs (h0 0) t = None /\ read_lazy w_prs (h0 0) t = Some r.
 Proof. eexists. split; [vm_compute; reflexivity|]. vm_compute. split; reflexivity. Qed.
 
-(* samples without FORMAT keys: written ". . .", the eager reader returns the two samples, the
-   lazy record none *)
+(* samples without FORMAT keys are written ". . ." and come back, without values, from both
+   readers (former defect lazy-samples-dropped-format-missing, repaired in 6449b9b: the lazy
+   record used to return no samples) *)
 Lemma witness_format_missing :
   let r := {| r_chrom := [99]; r_pos := 5; r_ids := []; r_ref := [65]; r_alts := []; r_qual := None;
               r_filters := []; r_info := []; r_keys := []; r_samples := [[]; []] |} in
   exists t, write_line w_fmt (h0 2) r = Some t /\
-    read_eager w_prs (h0 2) t = Some r /\ read_lazy w_prs (h0 2) t = Some r0.
+    read_eager w_prs (h0 2) t = Some r /\ read_lazy w_prs (h0 2) t = Some r.
 Proof. eexists. split; [vm_compute; reflexivity|]. vm_compute. split; reflexivity. Qed.
 
 (* the former panic class (INFO ends with CR and is followed by TAB LF): after the repair both
